@@ -248,6 +248,7 @@ func checkC01(r *core.Run) {
 	c02LeafHash(r, p, "R-C01-rules")
 	c01WeightBudget(r, p, "R-C01-rules")
 	c01AnnexHash(r, p, "R-C01-rules")
+	c01HadWitnessOnlyForPrograms(r, p, "R-C01-rules")
 	// verification always ends: a mutex that script verification takes is released on every way out of the
 	// function that took it (a verifier that keeps one blocks the next check on the same transaction for ever)
 	c11WorkerLocksBalanced(r, p, "R-C01-total")
